@@ -1,6 +1,5 @@
 import Gaftools.Props.C15
 import Gaftools.Proofs.BiccLemmas
-import Gaftools.Proofs.BiccCutLemmas
 /-!
 # C15 (biccs) — towards exactness of the iterative Hopcroft–Tarjan routine
 
@@ -50,7 +49,14 @@ theorem biccs_aps_sound (nb : V → List V) (Vs : List V) (hu : Undirected nb Vs
 /-- RUNG 5 — completeness: every cut vertex is reported -/
 theorem biccs_aps_complete (nb : V → List V) (Vs : List V) (hu : Undirected nb Vs) (hd : Vs.Nodup) (root : V) (hr : root ∈ Vs)
     (hc : connectedB nb Vs = true) :
-    ∀ a ∈ Vs, isCut nb Vs a = true → a ∈ (biccsFrom nb root (biccFuel nb Vs)).2 := by
-  sorry
+    ∀ a ∈ Vs, isCut nb Vs a = true → a ∈ (biccsFrom nb root (biccFuel nb Vs)).2 :=
+  Gaftools.Proofs.Bicc.aps_complete nb Vs hu hd root hr hc
+
+/-- the articulation points reported for a connected graph are EXACTLY the cut vertices (rungs 4 + 5 as sets) -/
+theorem biccs_aps_exact (nb : V → List V) (Vs : List V) (hu : Undirected nb Vs) (hd : Vs.Nodup) (root : V) (hr : root ∈ Vs)
+    (hc : connectedB nb Vs = true) (a : V) :
+    a ∈ (biccsFrom nb root (biccFuel nb Vs)).2 ↔ (a ∈ Vs ∧ isCut nb Vs a = true) :=
+  ⟨fun h => ⟨(bgo_wellformed nb Vs hu hd root hr).2 a h, biccs_aps_sound nb Vs hu hd root hr hc a h⟩,
+   fun h => biccs_aps_complete nb Vs hu hd root hr hc a h.1 h.2⟩
 
 end Gaftools.C15
